@@ -194,7 +194,7 @@ func c15SeamScenario(c *choice.Ctx, rep *report.R, depth int) {
 	for step := 0; step < depth; step++ {
 		ev := c.Choose(4, "event")
 		if ev == 3 {
-			time.Sleep(time.Second)
+			hsleep(time.Second)
 			wait()
 			trace = append(trace, "+1s")
 			continue
